@@ -186,7 +186,11 @@ def enumerations(tier):
     def shipped_hdf():
         for name in SHIPPED_AP3:
             yield {'kind': 'ap3file', 'file': name}
+    def shipped_keffs():
+        for name in KEFFS_LISTINGS:
+            yield {'kind': 't4keffs', 'file': name}
     return [('shipped-listings-reemitted', shipped_listings, True),
+            ('shipped-listings-keff-blocks', shipped_keffs, True),
             ('shipped-hdf5-files', shipped_hdf, True)]
 
 
@@ -793,6 +797,80 @@ def _run_ap3file(case, out):
 
 # --------------------------------------------------------------------------
 
+KEFFS_LISTINGS = ['angle.d.res.ceav5', 'cylindreDecR_with_kij_on_mesh.d.res.ceav5',
+                  'entropy.d.res.ceav5', 'pincell.res.ceav5',
+                  'pu_met_fast_001_decompose_list_small.d.res.ceav5', 'sensitivity_godiva.d.res',
+                  'ttsSimplePacket20.d.PARA.res.ceav5', 'ttsSimplePacket20.d.res.ceav5']
+
+
+def _run_t4keffs(case, out):
+    """k-effective blocks of a shipped listing (a layout the emitter does not produce): every
+    printed number of every edition, read independently by vlib/t4keff.py, against the browser
+    items of response function KEFFS.  Partially converged rows (value printed, sigma 'Not
+    converged') occur in the first editions of entropy.d.res.ceav5."""
+    from vlib import t4keff
+    out.labels.append('t4keffs')
+    path = os.path.join(T4_DATA, case['file'])
+    with open(path, errors='ignore') as fil:
+        blocks = [b for b in t4keff.keffs_blocks(fil.read())]
+    try:
+        parser = Parser(path)
+        numbers = parser.batch_numbers()
+    except Exception as exc:
+        out.failures.append(exc_failure('t4_shipped_raises', exc, case['file']))
+        return
+    if len(blocks) != len(numbers):
+        out.labels.append('t4keffs:blocks-do-not-match-editions')
+        return
+    nchecked = 0
+    for batch, blk in zip(numbers, blocks):
+        try:
+            items = parser.parse_from_number(batch).to_browser().filter_by(
+                response_function='KEFFS').content
+        except Exception as exc:
+            out.failures.append(exc_failure('t4_shipped_raises', exc, case['file']))
+            continue
+        by_est = {it.get('keff_estimator'): it for it in items}
+        rows = [(name, val, sig, None) for name, val, sig in blk['single']]
+        rows += [(f'{one}-{two}', val, sig, corr) for one, two, corr, val, sig in blk['combined']]
+        if 'full' in blk:
+            full = blk['full']
+            rows.append(('full combination', full[0] if full else None, full[1] if full else None,
+                         None))
+        for est, val, sig, corr in rows:
+            item = by_est.get(est)
+            where = f'{case["file"]} edition {batch} KEFFS {est}'
+            if item is None:
+                out.failures.append(Failure('t4_items', 'C10/t4/keffs/item-missing',
+                                            f'{where}: printed in the listing, no such item'))
+                continue
+            dset = item['results'].get('keff')
+            exp_v = float('nan') if val is None else val
+            exp_e = float('nan') if (val is None or sig is None) else val * sig * 0.01
+            conv = 'partially-converged' if (val is not None and sig is None) else \
+                'not-converged' if val is None else 'converged'
+            out.labels.append('t4keffs:' + conv)
+            nchecked += 1
+            if dset is None or not _same_exact(dset.value, exp_v):
+                out.failures.append(Failure(
+                    't4_value', f'C10/t4/keffs/value/{conv}',
+                    f'{where}: value {getattr(dset, "value", None)!r}, printed '
+                    f'{"Not converged" if val is None else val!r}'))
+            elif not _close_2ulp(dset.error, exp_e):
+                out.failures.append(Failure(
+                    't4_error', f'C10/t4/keffs/error/{conv}',
+                    f'{where}: error {dset.error!r}, expected value*sigma%*0.01 = {exp_e!r}'))
+            if corr is not None:
+                cds = item['results'].get('correlation_keff')
+                if cds is None or not _same_exact(cds.value, corr):
+                    out.failures.append(Failure(
+                        't4_value', 'C10/t4/keffs/correlation',
+                        f'{where}: correlation {getattr(cds, "value", None)!r}, printed {corr!r}'))
+    if nchecked:
+        out.nontrivial = True
+    out.info = {'file': case['file'], 'editions': len(numbers), 'printed keff rows checked': nchecked}
+
+
 def run_case(case):
     out = Outcome()
     kind = case['kind']
@@ -800,6 +878,8 @@ def run_case(case):
         _run_t4(case, out)
     elif kind == 't4file':
         _run_t4file(case, out)
+    elif kind == 't4keffs':
+        _run_t4keffs(case, out)
     elif kind == 'ap3':
         _run_ap3(case, out)
     elif kind == 'ap3file':
